@@ -81,7 +81,7 @@ def fuzz_contract(c, n, seed):
             env = {k: (sample(t, rng) if isinstance(t, api.T) else t) for k, t in c.params.items()}
         runs += 1
         warm = None
-        if 'self' in c.params and c.build is None and rng.random() < 0.5:
+        if 'self' in c.params and c.build is None and not c.no_history and rng.random() < 0.5:
             # history: one earlier call on the same object with other arguments (state left behind must not matter)
             try:
                 warm = c.sample(rng) if c.sample is not None else {k: (sample(t, rng) if isinstance(t, api.T) else t) for k, t in c.params.items()}
